@@ -42,7 +42,10 @@ static bool unxz(const std::string& z, std::string& out) {
 }
 
 // ------------------------------------------------------------------ one history
-enum Sink { S_MEM, S_FILE, S_FD };
+enum Sink { S_MEM, S_FILE, S_FD, S_FDS };   // S_FDS: descriptor whose write(2) transfers at most 7 bytes per call (environment deviation 'short write')
+#include <sys/syscall.h>
+static size_t g_wcap = 0; static uint64_t g_short_writes = 0;
+extern "C" ssize_t write(int fd, const void* buf, size_t n) { if (g_wcap && fd > 2 && n > g_wcap) { g_short_writes++; n = g_wcap; } return syscall(SYS_write, fd, buf, n); }
 struct Run { std::string cfg; int sink = S_MEM; int comp = 0; };
 static std::string g_dir; static std::string g_profile; static bool g_abstract_key = false;
 static std::map<uint64_t, Pools> g_pools;
@@ -64,7 +67,9 @@ template <class B> static std::string block_digest(B& b) {
     return k.str();
 }
 // returns true if the history is inside the documented preconditions (counted), false if pruned
-static bool run_history(const Cfg& cfg, const Run& run, const std::vector<Op>& h, Result& R, std::vector<Viol>& V, std::string* state_key = nullptr) {
+static bool run_history(const Cfg& cfg, const Run& run_in, const std::vector<Op>& h, Result& R, std::vector<Viol>& V, std::string* state_key = nullptr) {
+    Run run = run_in; struct CapGuard { uint64_t s0 = g_short_writes; Result& R; ~CapGuard() { g_wcap = 0; R.count("short_writes", g_short_writes - s0); } } capguard{g_short_writes, R};
+    if (run.sink == S_FDS) { run.sink = S_FD; g_wcap = 7; }
     std::vector<BlockParameters> bps; std::vector<model::Params> mps;
     for (auto& s : cfg.sets) { bps.push_back(build_bp(s)); mps.push_back(model::from(bps.back())); }
     BlockParameters extra = build_bp(cfg.extra);
@@ -225,9 +230,9 @@ static Profile profile(const std::string& name, bool T) {
         p.alphabet = {"qr0", "qr3", "aec0", "mm0", "wb", "rotx", "rotn", "rots", "addbp", "act0", "act1"};
         p.cfgs.push_back({"one_m2", {PS(2, 1000000, 0)}, PS(1, 1000, 0, true)});
         p.cfgs.push_back({"two_m1_m3", {PS(1, 1000000, 0), PS(3, 1000, 3, true)}, PS(2, 1, 0)});
-        p.runs = {{"", S_FILE, 0}, {"", S_FD, 0}}; p.depth_q = 4; p.depth_t = 5;
+        p.runs = {{"", S_FILE, 0}, {"", S_FD, 0}, {"", S_FDS, 0}}; p.depth_q = 4; p.depth_t = 5;
     } else if (name == "rotate-gz") {
-        p = profile("rotate", T); p.runs = {{"", S_FILE, 1}, {"", S_FD, 1}}; p.depth_q = 3; p.depth_t = 4;
+        p = profile("rotate", T); p.runs = {{"", S_FILE, 1}, {"", S_FD, 1}, {"", S_FDS, 1}}; p.depth_q = 3; p.depth_t = 4;
     } else if (name == "rotate-xz") {
         p = profile("rotate", T); p.runs = {{"", S_FILE, 2}, {"", S_FD, 2}}; p.alphabet = {"qr0", "aec0", "mm0", "wb", "rotx", "rotn", "rots", "addbp", "act1"}; p.depth_q = 2; p.depth_t = 3;
     } else if (name == "roundtrip") {
@@ -259,7 +264,7 @@ static Profile profile(const std::string& name, bool T) {
         p.cfgs.push_back({"m2", {PS(2, 1000000, 0), PS(1, 1000, 3, true)}, PS(3, 1000, 0)});
         p.cfgs.push_back({"m2_emptycp", {PS(2, 1000000, 0, 2), PS(1, 1000, 3, 2)}, PS(3, 1000, 0, 2)});   // collection parameters present but empty
         p.cfgs.push_back({"m1_cp1", {PS(1, 1000000, 0, 3)}, PS(3, 1000, 0, 2)});
-        p.runs = {{"", S_MEM, 0}, {"", S_MEM, 1}, {"", S_FD, 0}, {"", S_FILE, 0}}; p.depth_q = 3; p.depth_t = 4;
+        p.runs = {{"", S_MEM, 0}, {"", S_MEM, 1}, {"", S_FD, 0}, {"", S_FILE, 0}, {"", S_FDS, 0}}; p.depth_q = 3; p.depth_t = 4;
         if (T) { p.runs.push_back({"", S_MEM, 2}); p.runs.push_back({"", S_FILE, 1}); }
     }
     return p;
